@@ -4,7 +4,8 @@ CONSTANTS
     MaxParallel = 8
     Hedging = TRUE
     MaxHedges = 1
-    Kinds = {"ok", "err"}
+    Kinds = {"ok"}
+    HedgeKinds = {"ok", "err", "short"}
     Probes = {"parallel"}
     Fixed = TRUE
     Eager = TRUE
